@@ -254,3 +254,9 @@ def import_module():
 
 def replay_cases(path):
     return [l[5:].rstrip("\n") for l in open(path) if l.startswith("CASE ")]
+
+
+def pkw(alpha):
+    """keyword arguments selecting the alphabet: the documented default (`protein=False`) is LEFT OUT for
+    DNA, so that the defaults of every constructor / function are part of what is observed"""
+    return {"protein": True} if alpha == "protein" else {}
